@@ -61,7 +61,7 @@ static void obs_flush(void)
 #define MAXACT 12
 #define FD0 100
 #define NFD 8
-#define PID0 5000
+#define PID0 1000000000 /* far above any real pid (pid_max <= 2^22): waitpid is interposed for the whole process */
 #define NPID 8
 
 enum { K_NONE, K_TIMER, K_LATER, K_IO, K_SIGNAL, K_PROCESS };
